@@ -1,7 +1,7 @@
 (* Extraction of the executable model to OCaml (zarith-backed Z). *)
 From Coq Require Import ZArith List.
 From Coq Require Import ExtrOcamlBasic ExtrOcamlZBigInt.
-From PlonkV Require Import Base.Fr Gates.Gate Gates.CS Composer.State Composer.Components Alg.Poly Alg.FFT.
+From PlonkV Require Import Base.Fr Gates.Gate Gates.CS Composer.State Composer.Components Alg.Poly Alg.FFT Protocol.Kzg Protocol.Capacity.
 Extraction Language OCaml.
 Extraction "model.ml"
   r of_Z val fadd fsub fmul fopp finv feqb
@@ -16,4 +16,6 @@ Extraction "model.ml"
   component_truncate append_logic_and append_logic_xor
   peval padd psub pmul pscale ptrim ruffini dft resize distribute_powers powers
   fft ifft coset_fft coset_ifft domain_log domain_size domain_gen size_inv
-  parallel_butterfly butterfly_range vanishing_eval lagrange_all interp_eval batch_inversion fpow_nat.
+  parallel_butterfly butterfly_range vanishing_eval lagrange_all interp_eval batch_inversion fpow_nat
+  commit commit_guard mkOpening batch_all batch_check_u aggregate_witness flatten srs_powers
+  direct_route_ok compressed_route_ok max_constraints.
